@@ -267,7 +267,17 @@ class AsyncIOBackend(AbstractAsyncBackend):
         )
         protocol_factory = _utils.make_callback(DatagramListenerProtocol, loop=loop)
 
-        listeners = [await loop.create_datagram_endpoint(protocol_factory, sock=sock) for sock in sockets]
+        listeners: list[tuple[Any, Any]] = []
+        try:
+            for sock in sockets:
+                listeners.append(await loop.create_datagram_endpoint(protocol_factory, sock=sock))
+        except BaseException:
+            # Do not leak the endpoints already created nor the sockets which are not wrapped yet.
+            for transport, _ in listeners:
+                transport.abort()
+            for sock in sockets:
+                sock.close()
+            raise
         return [DatagramListenerSocketAdapter(self, transport, protocol) for transport, protocol in listeners]
 
     def create_lock(self) -> ILock:
